@@ -318,12 +318,14 @@ def _observe(desc, obs, P, name, slot, fwd, mech, method, fwd_opts, bck, bck_bef
     names = [k for k, v in lv_c.items() if v.requires_grad]
     tol = P.tol + 50 * dist
     gs = max(1.0, max(float(g.abs().max()) for g in g1_r))
+    obs.note(grad1_error_over_bound=max(float((a - b).abs().max()) for a, b in zip(g1_c, g1_r)) / (tol * gs))
     for nme, a, b in zip(names, g1_c, g1_r):
         err = float((a - b).abs().max())
         obs.check(err <= tol * gs, "bck_strict:grad1:" + mech, "first-order gradient w.r.t. %s with the caller's backward method differs from the built-in's by %.3e (scale %.2e)" % (nme, err, gs), leaf=nme)
     obs.check((g2_c is None) == (g2_r is None), "bck_strict:grad2_presence:" + mech, "second-order graph present for one of custom / built-in only")
     if g2_c is not None and g2_r is not None:
         gs2 = max(1.0, max(float(g.abs().max()) for g in g2_r))
+        obs.note(grad2_error_over_bound=max(float((a - b).abs().max()) for a, b in zip(g2_c, g2_r)) / (20 * tol * gs2))
         for nme, a, b in zip(names, g2_c, g2_r):
             err = float((a - b).abs().max())
             obs.check(err <= 20 * tol * gs2, "bck_strict:grad2:" + mech, "second-order gradient w.r.t. %s with the caller's backward method differs from the built-in's by %.3e (scale %.2e)" % (nme, err, gs2), leaf=nme)
